@@ -23,7 +23,7 @@
    "behaves identically" follows from "all non-transient members equal" only under the assumption
    that behaviour is a function of those members and of the constructor-supplied structure. *)
 From Coq Require Import List Arith Bool ZArith String.
-From SharkV Require Import C18Model C18Proofs.
+From SharkV Require Import C18Model C18Proofs C18Nested C18NestedProofs.
 Import ListNotations.
 Open Scope list_scope.
 
@@ -76,3 +76,92 @@ Theorem C18_seq_mismatch_extra_trailing_read : forall wf f x fresh,
   read_obj (wf ++ [f]) fresh (write_obj wf x) = None.
 Proof. exact seq_mismatch_extra_trailing_read. Qed.
 Print Assumptions C18_seq_mismatch_extra_trailing_read.
+
+(* ------------------------------------------------------------------------------------------------ *)
+(* nested descriptions (C18Nested.v): objects inside objects, containers, pointers -- structural induction over desc *)
+
+Theorem C18_nested_roundtrip : forall rd wd,
+  rd = wd -> wfd wd = true ->
+  forall x fresh rest, ntyped wd x = true ->
+    exists x', nread rd fresh (nwrite wd x ++ rest) = Some (x', rest) /\ streq wd x x'.
+Proof. exact nested_roundtrip. Qed.
+Print Assumptions C18_nested_roundtrip.
+
+Theorem C18_nested_class_roundtrip : forall rd wd,
+  rd = wd -> wfd wd = true -> ncovers wd = true ->
+  forall x fresh rest, ntyped wd x = true ->
+    exists x', nread rd fresh (nwrite wd x ++ rest) = Some (x', rest) /\
+               streq wd x x' /\ restored wd x x'.
+Proof. exact nested_class_roundtrip. Qed.
+Print Assumptions C18_nested_class_roundtrip.
+
+Theorem C18_nested_cover_composes : forall members transient fs,
+  ncovers (DObj members transient fs) = shallow_covers (DObj members transient fs) && fcovers fs.
+Proof. exact ncovers_compose. Qed.
+Print Assumptions C18_nested_cover_composes.
+
+Theorem C18_nested_cover_flat : forall members transient fl,
+  ncovers (desc_of_class members transient fl) = covers members fl transient.
+Proof. exact ncovers_flat. Qed.
+Print Assumptions C18_nested_cover_flat.
+
+Theorem C18_nested_dropped_member_not_restored : forall members transient rfs fresh ts x' r n,
+  nread (DObj members transient rfs) fresh ts = Some (x', r) ->
+  ~ In n (fnames rfs) ->
+  forall x, nlookup n (members_of x) <> nlookup n (members_of fresh) ->
+            nlookup n (members_of x') <> nlookup n (members_of x).
+Proof. exact nested_dropped_member_not_restored. Qed.
+Print Assumptions C18_nested_dropped_member_not_restored.
+
+Theorem C18_data_roundtrip : forall batch, wfd batch = true ->
+  forall bs dims numel fresh rest,
+    forallb (ntyped batch) bs = true ->
+    exists d', nread (data_desc batch) fresh (nwrite (data_desc batch) (data_val bs (shape_val dims numel)) ++ rest)
+               = Some (d', rest) /\
+               length (data_batches d') = length bs /\
+               Forall2 (streq batch) bs (data_batches d') /\
+               shape_dims (data_shape d') = NPrim (VList (map VNat dims)) /\
+               shape_numel (data_shape d') = NPrim (VNat numel).
+Proof. exact data_roundtrip. Qed.
+Print Assumptions C18_data_roundtrip.
+
+Theorem C18_data_roundtrip_eq : forall batch, wfd batch = true -> objfree batch = true ->
+  forall bs dims numel fresh rest,
+    forallb (ntyped batch) bs = true ->
+    exists d', nread (data_desc batch) fresh (nwrite (data_desc batch) (data_val bs (shape_val dims numel)) ++ rest)
+               = Some (d', rest) /\
+               data_batches d' = bs /\
+               shape_dims (data_shape d') = NPrim (VList (map VNat dims)) /\
+               shape_numel (data_shape d') = NPrim (VNat numel).
+Proof. exact data_roundtrip_eq. Qed.
+Print Assumptions C18_data_roundtrip_eq.
+
+Theorem C18_data_roundtrip_empty : forall batch, wfd batch = true ->
+  forall dims numel fresh rest,
+    exists d', nread (data_desc batch) fresh (nwrite (data_desc batch) (data_val [] (shape_val dims numel)) ++ rest)
+               = Some (d', rest) /\
+               data_batches d' = [] /\
+               shape_dims (data_shape d') = NPrim (VList (map VNat dims)) /\
+               shape_numel (data_shape d') = NPrim (VNat numel).
+Proof. exact data_roundtrip_empty. Qed.
+Print Assumptions C18_data_roundtrip_empty.
+
+Theorem C18_data_roundtrip_single_element : forall v dims numel fresh rest,
+  has_kind KDbl v = true ->
+  let batch := DPrim (KMat KDbl) in
+  let b := NPrim (VMat 1 1 [v]) in
+  exists d', nread (data_desc batch) fresh (nwrite (data_desc batch) (data_val [b] (shape_val dims numel)) ++ rest)
+             = Some (d', rest) /\
+             data_batches d' = [b] /\
+             shape_dims (data_shape d') = NPrim (VList (map VNat dims)) /\
+             shape_numel (data_shape d') = NPrim (VNat numel).
+Proof. exact data_roundtrip_single_element. Qed.
+Print Assumptions C18_data_roundtrip_single_element.
+
+(* the description the translator regenerates for Data (one primitive container field) has the token layout of data_desc *)
+Theorem C18_data_desc_prim_same_layout : forall k vs dims numel,
+  nwrite (data_desc_prim k)
+         (NObj [("m_data", NObj [("m_data", NPrim (VList (map VSome vs)))]); ("m_shape", shape_val dims numel)]) =
+  nwrite (data_desc (DPrim k)) (data_val (map NPrim vs) (shape_val dims numel)).
+Proof. exact data_desc_prim_same_layout. Qed.
+Print Assumptions C18_data_desc_prim_same_layout.
